@@ -303,10 +303,19 @@ def check_pysnmp_defaults(ctx, obs):
             k, v = d['defval']
             t = g.truth[(mn, d['name'])]
             base = t.get('chain_base', d['syntax'])
-            if k not in ('num', 'hex', 'bin') or base.get('kind') != 'int':
-                continue
             pyname = mibgen.jname(d['name'])
             cls = ex['ns'].get('_%s_Type' % (pyname[:1].upper() + pyname[1:]))
+            if k == 'str' and oct_base(base) and cls is not None and 'defaultValue' in getattr(cls, '__dict__', {}):
+                # a string default is written as OctetString("<text>"): executing the module must give the text back
+                dv = cls.__dict__['defaultValue']
+                text = dv.rec_args[0] if getattr(dv, 'rec_args', None) else dv
+                res.count('pysnmp-default:str')
+                if text != v:
+                    res.oracle_failures.append({'key': 'pysnmp-default', 'what': '%s::%s: DEFVAL { "%s" } reaches the pysnmp module as %r' % (
+                        mn, d['name'], v, text), 'input': inp})
+                continue
+            if k not in ('num', 'hex', 'bin') or base.get('kind') != 'int':
+                continue
             if cls is None:
                 continue
             res.count('pysnmp-default:' + k)
@@ -460,4 +469,18 @@ def replay(payload):
             got = ((doc.get(sym) or {}).get('default') or {}).get('default')
             if got is None or any(got.get(k) != v for k, v in want.items()):
                 bad.append('%s::%s default %r, expected %r' % (mod, sym, got, want))
+    for mod, exp in (inp.get('expect_pysnmp_defaults') or {}).items():
+        from impl import recbuilder
+        r2, out2, _ = pipeline.compile_set(texts, backend='pysnmp', genTexts=True)
+        try:
+            b, ns = recbuilder.execute(out2[mod], mod)
+        except BaseException as e:
+            bad.append('%s: generated module does not load: %s' % (mod, type(e).__name__))
+            continue
+        for sym, want in exp.items():
+            cls = ns.get('_%s_Type' % (sym[:1].upper() + sym[1:]))
+            dv = getattr(cls, '__dict__', {}).get('defaultValue')
+            text = dv.rec_args[0] if getattr(dv, 'rec_args', None) else dv
+            if text != want:
+                bad.append('%s::%s default %r, expected %r' % (mod, sym, text, want))
     return {'fails': bool(bad), 'what': bad}
